@@ -123,6 +123,12 @@ fn main() {
     let threads: usize = std::env::var("VERIF_THREADS").ok().and_then(|s| s.parse().ok()).unwrap_or_else(|| std::thread::available_parallelism().map(|n| n.get()).unwrap_or(8));
     let scale: f64 = std::env::var("VERIF_SCALE").ok().and_then(|s| s.parse().ok()).unwrap_or(1.0);
     let id = args[1].clone();
+    if id == "fuzz-seeds" {
+        // regenerate the committed libFuzzer seed corpora from the generator families (fixed recipes)
+        let dir = PathBuf::from(args.get(2).cloned().unwrap_or_else(|| "/verif/fuzz/seeds".into()));
+        selftest::write_fuzz_seeds(&dir);
+        return;
+    }
     if id == "hardtable" {
         selftest::hard_table_report();
         return;
